@@ -3,6 +3,13 @@ import json, os
 ROOT = os.path.dirname(os.path.dirname(os.path.abspath(__file__)))
 
 CHECKS = {
+    "C05": dict(
+        category="exploration",
+        text="History-independence runtime monitor: the same target is compiled repeatedly in one process after random histories (including failing compilations) and forced values of the public fresh-name counter, in fresh processes (new hash seeds) and by concurrent threads; every observation (bytes, symbol table) must equal the first, and the per-thread integer-conversion mode must be restored after every compilation.",
+        design_ref="DESIGN.md §4 C05",
+        note="hash seeds are varied by repetition, not chosen",
+        technique="runtime monitoring of recorded compilation histories (metamorphic: history/process/thread independence)",
+    ),
     "C11": dict(
         category="exploration",
         text="Differential runtime monitor across the real entry points: for generated programs (with and without include files on a search path, every dialect) the bytes emitted by compile_clvm_text, file-to-file compile_clvm, the CLI derivation with -O, the real Python extension (compile, compile_clvm), and the real `run -O` binary (re-assembled by the real opc) must be identical; the real `cldb -t` must have compiled the program whose tree hash `run` emits with the same flags.",
